@@ -97,7 +97,7 @@ def generate(ctx, n_quick=1500):
             return
         r = rng.fork(i)
         # every fifth body may also hold event statements
-        yield _case(r, i, G.HOMES[i % 4], r.randint(1, maxsize), None, vary=r.random() < 0.85,
+        yield _case(r, i, G.HOMES[i % len(G.HOMES)], r.randint(1, maxsize), None, vary=r.random() < 0.85,
                     events=(i % 5 == 4))
 
 
